@@ -7,7 +7,8 @@ LEVEL = 'proof'
 RULE = ('dict and e2e stages (implementation vs extracted Gallina pipeline). Oracle: documents whose payload words are distinct tokens '
         '(ASCII, RTL, astral, accented), generated structured + mutated + token soup, 7 roots: the multiset of tokens of the input equals '
         'the multiset of tokens in the output body (text nodes + attribute values outside meta, ignoring eId and by); no other word appears '
-        'in text nodes except the placeholders; token order is kept when the document has no footnote block. non-trivial = >= 10 tokens; '
+        'in text nodes except the placeholders; token order is kept when the document has no footnote block; abstract documents with a prescribed tree (absdoc): the words of the '
+        'output body, in order, are exactly the payload words - no keyword, marker or separator in keyword position shows up as text. non-trivial = >= 10 tokens; '
         'distinct by (root, text).')
 TRUSTED_BASE = [
     'Coq 8.16.1 kernel; no axioms',
@@ -87,6 +88,33 @@ def _pair_oracle(args):
         return ('bad', 'markup words in the body although every other footnote block is referenced: %r' % extra[:3], text)
     return ('ok', None, text)
 
+def _spec_oracle(args):
+    """abstract documents (tools/harness/absdoc.py: text + prescribed tree): the words of the output body, in order, are the
+    words of the prescribed tree - every keyword in keyword position is markup, so no keyword, marker or separator shows up as a word"""
+    seed, root, depth = args
+    from props import C04
+    d = C04.make(seed, root, depth)
+    if d is None:
+        return ('skip', None, None)
+    text, exp = d[0], d[1]
+    try:
+        xml = impl.parser().parse_to_xml(text, root)
+    except Exception as e:
+        return ('raised', impl.exc_kind(e), text)
+    ns = '{%s}' % xmlsx.NS
+    def words(el, out):
+        if el.tag == ns + 'meta': return out
+        if el.text: out += el.text.split()
+        for c in el:
+            if isinstance(c.tag, str): words(c, out)
+            if c.tail: out += c.tail.split()
+        return out
+    got, want = words(xml[0], []), words(exp, [])
+    if got != want:
+        i = next((i for i in range(min(len(got), len(want))) if got[i] != want[i]), min(len(got), len(want)))
+        return ('bad', 'words of the body differ from the payload words at word %d: got %r, payload %r' % (i, got[max(0, i - 2):i + 4], want[max(0, i - 2):i + 4]), text)
+    return ('ok', len(want), text)
+
 def cases(ctx, n):
     out = []
     for _ in range(n):
@@ -107,6 +135,11 @@ def search(ctx, budget):
         ctx.evaluations += 1; ctx.count('footnote_pairs_' + r[0])
         if r[0] == 'bad':
             ctx.failures.append(({'stage': 'pairs', 'seed': j[0], 'root': j[1], 'text': r[2]}, r[1]))
+    sj = [(ctx.rng.randrange(1 << 30), ctx.rng.choice(gen.ROOTS7), ctx.rng.choice([3, 4, 4, 5])) for _ in range(ctx.n(400, 15000) * budget)]
+    for j, r in zip(sj, impl.pmap(_spec_oracle, sj, chunk=8)):
+        ctx.evaluations += 1; ctx.count('spec_words_' + r[0])
+        if r[0] == 'bad':
+            ctx.failures.append(({'stage': 'spec-words', 'seed': j[0], 'root': j[1], 'depth': j[2], 'text': r[2]}, r[1]))
     cs = list(getattr(ctx, '_docs', [])) + (cases(ctx, ctx.n(700, 40000) * (budget - 1)) if budget > 1 else [])
     cs.append((stages.URIS[0], 'debateReport', '', '} SUBRULE\n  w1z\nw2z\n      COMMUNICATION\nATTACHMENT RESOLUTIONS م3z{{*BACKGROUND  - \n      tok4z -  😀z5z{{em\n    ANNEXURE\n      م6z ש7z\n      PREFACE\n  ש8z'))      # witness of known finding F20
     for c, r in zip(cs, impl.pmap(_oracle, cs, chunk=8)):
@@ -131,6 +164,8 @@ def replay(obj):
     case = obj.get('case') or (obj.get('disagreements') or [{}])[0].get('case')
     if not case:
         print('nothing to replay:', obj.get('broken_obligations')); return 1
+    if case.get('stage') == 'spec-words':
+        r = _spec_oracle((case['seed'], case['root'], case['depth'])); print(r[:2]); return 1 if r[0] == 'bad' else 0
     if case.get('stage') == 'pairs':
         r = _pair_oracle((case['seed'], case['root'])); print(r[:2]); return 1 if r[0] == 'bad' else 0
     ok = stages.replay_stage(case)
